@@ -4,6 +4,7 @@ import HpxVerif.Lemmas.ConeReal
 import HpxVerif.Props.C16
 import HpxVerif.Lemmas.CellExtent4
 import HpxVerif.Lemmas.EConeEq3
+import HpxVerif.Lemmas.Tightness4
 
 set_option autoImplicit false   -- an unknown identifier in a statement is an error, never a new variable
 
@@ -129,5 +130,62 @@ theorem cone_full_inside_equatorial_gen (cfg : Cfg) (lon lat r : ℝ) (hA : |lat
 
 
 end EquatorialEveryStart
+
+
+/-! ## tightness: every reported cell has its centre within `r + 2·Mtrue(depth)` of the cone centre - EVERY cone, no geometric
+hypothesis (the skip rule bounds the distance by `r + D`, and `D ≤ 2·Mtrue`: C16 `envelope_with_radius_le_twice_true_all`).
+Not covered: full parents created by packing (they need "full ⇒ inside"), `delta_depth > 0`, and in the small-cone branch
+with starting depth above the requested depth the bound is on the tested descendant, not on the reported ancestor. -/
+
+section Tightness
+open Hpx Hpx.Hash Hpx.Proj Hpx.Cover Hpx.C2V Hpx.C2VReal Hpx.EnvelopeReal Hpx.EnvelopePolar Hpx.CellReal Hpx.TopoLift Hpx.CellExtent Hpx.Bmoc Hpx.Sph Hpx.EConeEq Hpx.Tightness Real
+
+/-- **`cone_tight_rec`** (ℝ, release profile).  Any cone `(lon, lat, r)` with `0 ≤ r` (no restriction on its position);
+    start depth `ds ≤ target ≤ 29`; `dists` the list `largest_center_to_vertex_distances_with_radius(ds, target + 1, lon,
+    lat, r)` of the crate.  Every cell `c` of the output of the descent from any start cell has a centre, which is within
+    `min (r + D) π` of the cone centre, `D` the crate's radius of its depth — hence within `r + 2·Mtrue c.depth`:
+    radius + twice the TRUE centre-to-vertex distance `π/4·2^-depth` of the cells of its depth centred on the equator. -/
+theorem cone_tight_rec (cfg : Cfg) (lon lat r : ℝ) (hr : 0 ≤ r) (ds target : ℕ) (hdt : ds ≤ target) (ht : target ≤ 29)
+    (dists : List ℝ) (hdists : largestC2VsWithRadius false ds (target + 1) lon lat r = some dists)
+    (fuel root : ℕ) (out : List Cell)
+    (h : coverRec target (coneClassifier (α := ℝ) cfg lon lat (Num.cos lat) (dists.map (toShsMinMax r))) fuel ds root 0
+      = some out)
+    (c : Cell) (hc : c ∈ out) :
+    ∃ ctr, center (α := ℝ) cfg c.depth c.hash = some ctr ∧
+      adist (lon, lat) ctr ≤ min (r + valR c.depth lon lat r) π ∧
+      adist (lon, lat) ctr ≤ r + 2 * Mtrue c.depth :=
+  Hpx.Tightness.cone_tight_rec cfg lon lat r hr ds target hdt ht dists hdists fuel root out h c hc
+
+/-- **`coneInternal_tight`** (ℝ, both profiles: in the dev profile the helpers return the release values or panic): every cell `c` of the list that
+    `cone_coverage_approx_internal(depth, lon, lat, r)` hands to the builder (`0 ≤ r`, any cone) satisfies
+    * (all-sky `r ≥ π`, twelve base cells + recursion, start depth `ds < depth` + recursion, and small cone with
+      `ds = depth`) its centre is within `r + 2·Mtrue c.depth` of the cone centre; or
+    * (small cone, `ds = best_starting_depth(r) > depth`) `c` is the (partial) ancestor at `depth` of a cell `e` of depth `ds`,
+      a neighbour of the cell containing the cone centre, whose centre is within `r + 2·Mtrue ds` of the cone centre. -/
+theorem cone_internal_tight (cfg : Cfg) (depth : ℕ) (hd : depth ≤ 29) (lon lat r : ℝ)
+    (hr : 0 ≤ r) (cells : List Cell) (h : coneInternal (α := ℝ) cfg depth lon lat r = some cells) (c : Cell)
+    (hc : c ∈ cells) :
+    (∃ ctr, center (α := ℝ) cfg c.depth c.hash = some ctr ∧ adist (lon, lat) ctr ≤ r + 2 * Mtrue c.depth) ∨
+    (∃ ds e ctr, C2V.bestStartingDepth r = some ds ∧ depth < ds ∧ c.depth = depth ∧ c.full = false ∧
+      c.hash = e >>> ((ds - depth) <<< 1) ∧ center (α := ℝ) cfg ds e = some ctr ∧
+      adist (lon, lat) ctr ≤ r + 2 * Mtrue ds) :=
+  Hpx.Tightness.coneInternal_tight cfg depth hd lon lat r hr cells h c hc
+
+/-- **`cone_coverage_approx`, on the returned BMOC** (ℝ, both profiles, any cone with `0 ≤ r`): every entry of the BMOC is
+    either a FULL cell (possibly created by the compaction from four full cells: covered by the "full ⇒ inside" clause of
+    C06), or a cell of the internal list, for which `coneInternal_tight` holds: its centre is within `r + 2·Mtrue depth` of
+    the cone centre (or it is the ancestor of such a cell in the small-cone branch `ds > depth`). -/
+theorem cone_coverage_approx_tight (cfg : Cfg) (depth : ℕ) (lon lat r : ℝ) (hr : 0 ≤ r) (b : BMOC)
+    (h : coneCoverageApprox (α := ℝ) cfg depth lon lat r = some b) (e : ℕ) (he : e ∈ b.entries) :
+    (decode e depth).full = true ∨
+    (∃ ctr, center (α := ℝ) cfg (decode e depth).depth (decode e depth).hash = some ctr ∧
+      adist (lon, lat) ctr ≤ r + 2 * Mtrue (decode e depth).depth) ∨
+    (∃ ds e' ctr, C2V.bestStartingDepth r = some ds ∧ depth < ds ∧ (decode e depth).depth = depth ∧
+      (decode e depth).hash = e' >>> ((ds - depth) <<< 1) ∧ center (α := ℝ) cfg ds e' = some ctr ∧
+      adist (lon, lat) ctr ≤ r + 2 * Mtrue ds) :=
+  Hpx.Tightness.coneCoverageApprox_tight cfg depth lon lat r hr b h e he
+
+
+end Tightness
 
 end Hpx.C06
